@@ -396,7 +396,10 @@ func (t *taskTrace) Do(options ...DoOption) {
 
 	response := newDoOption(options...)
 	verifhook.Point("tasktrace.do.before_send")
-	t.forward <- *response
+	select {
+	case t.forward <- *response:
+	case <-t.done:
+	}
 }
 
 func (t *taskTrace) process() {
